@@ -28,7 +28,8 @@ def _dtypes():
     global DTYPES
     if DTYPES is None:
         import polars as pl
-        DTYPES = {"str": pl.Utf8, "int": pl.Int64, "float": pl.Float64, "bool": pl.Boolean}
+        DTYPES = {"str": pl.Utf8, "int": pl.Int64, "float": pl.Float64, "bool": pl.Boolean, "date": pl.Date,
+                  "int32": pl.Int32, "float32": pl.Float32}
     return DTYPES
 
 
@@ -37,8 +38,12 @@ def mkdf(dfspec):
     dt = _dtypes()
     data = {}
     schema = {}
+    import datetime
     for c in dfspec["cols"]:
-        data[c["name"]] = c["values"]
+        vals = c["values"]
+        if c["dtype"] == "date":
+            vals = [None if v is None else datetime.date.fromisoformat(v) for v in vals]
+        data[c["name"]] = vals
         schema[c["name"]] = dt[c["dtype"]]
     return pl.DataFrame(data, schema=schema)
 
@@ -60,17 +65,46 @@ def write_figures(figspec, tmpdir):
         with open(p, "wb") as fh:
             fh.write(bytes.fromhex(f["hex"]))
         paths.append(p)
+    order = figspec.get("order")
+    if order:
+        # the figure list may name the same file more than once
+        paths = [paths[i] for i in order]
     return paths
+
+
+def _alt_forms(kwargs, seed):
+    """equivalent input forms of the public API: a grouping key given as a string instead of a list of
+    one, text as a tuple instead of a list, int-valued floats ... (selected by the spec's "_forms" number)"""
+    if not seed:
+        return kwargs
+    import random
+    rng = random.Random(seed)
+    out = dict(kwargs)
+    for k in ("page_by", "subline_by", "group_by"):
+        v = out.get(k)
+        if isinstance(v, list) and len(v) == 1 and rng.random() < 0.5:
+            out[k] = v[0]
+    t = out.get("text")
+    if isinstance(t, list) and len(t) == 1 and rng.random() < 0.5:
+        out["text"] = t[0]
+    elif isinstance(t, list) and rng.random() < 0.3:
+        out["text"] = tuple(t)
+    for k in ("text_font_size", "cell_height"):
+        v = out.get(k)
+        if isinstance(v, int) and not isinstance(v, bool) and rng.random() < 0.5:
+            out[k] = float(v)
+    return out
 
 
 def build_components(spec, tmpdir=None):
     """-> dict of keyword arguments for RTFDocument (objects constructed)."""
     import rtflite as rtf
     kw = {}
+    forms = spec.get("_forms", 0)
     kind = spec.get("kind", "table")
     if kind == "table":
         kw["df"] = mkdf(spec["df"])
-        kw["rtf_body"] = rtf.RTFBody(**spec.get("body", {}))
+        kw["rtf_body"] = rtf.RTFBody(**_alt_forms(spec.get("body", {}), forms))
         h = spec.get("colheader", "default")
         if h != "default":
             kw["rtf_column_header"] = _headers(rtf, h)
@@ -97,7 +131,10 @@ def build_components(spec, tmpdir=None):
         assert tmpdir is not None, "figure specs need a tmpdir"
         paths = write_figures(spec["figure"], tmpdir)
         fkw = dict(spec["figure"].get("kw", {}))
-        if spec["figure"].get("single_path"):
+        if forms and forms % 2:
+            import pathlib
+            paths = [pathlib.Path(p) if i % 2 == 0 else p for i, p in enumerate(paths)]
+        if spec["figure"].get("single_path") and len(paths) == 1:
             fkw["figures"] = paths[0]
         else:
             fkw["figures"] = paths
@@ -108,13 +145,13 @@ def build_components(spec, tmpdir=None):
     if t is None:
         kw["rtf_title"] = None
     elif t != "default":
-        kw["rtf_title"] = rtf.RTFTitle(**t)
+        kw["rtf_title"] = rtf.RTFTitle(**_alt_forms(t, forms))
     for key, cls in (("subline", "RTFSubline"), ("page_header", "RTFPageHeader"),
                      ("page_footer", "RTFPageFooter"), ("footnote", "RTFFootnote"),
                      ("source", "RTFSource")):
         v = spec.get(key)
         if v is not None:
-            kw["rtf_" + key] = getattr(rtf, cls)(**v)
+            kw["rtf_" + key] = getattr(rtf, cls)(**_alt_forms(v, forms and forms + len(key)))
     return kw
 
 
@@ -125,7 +162,7 @@ def build(spec, tmpdir=None):
 
 def strip_meta(spec):
     if isinstance(spec, dict):
-        return {k: strip_meta(v) for k, v in spec.items() if not k.startswith("_")}
+        return {k: strip_meta(v) for k, v in spec.items() if not k.startswith("_") or k == "_forms"}
     if isinstance(spec, list):
         return [strip_meta(v) for v in spec]
     return spec
